@@ -179,13 +179,30 @@ func SpellRune(r rune, o *RenderOpts) string {
 	return sp[0]
 }
 
-// QuoteString renders a string literal with the given raw content.
+// DoubleQuotable reports whether content can be written between double quotes so that the gocc
+// scanner takes exactly content as the literal's text: no newline, every backslash followed by
+// another character (the pair is skipped by the scanner), no bare double quote.
+func DoubleQuotable(content string) bool {
+	for i := 0; i < len(content); i++ {
+		switch content[i] {
+		case '\n', '"':
+			return false
+		case '\\':
+			if i+1 >= len(content) || content[i+1] == '\n' {
+				return false
+			}
+			i++
+		}
+	}
+	return true
+}
+
+// QuoteString renders a string literal with the given raw content (gocc does no escape
+// processing: the content is the text between the delimiters).
 func QuoteString(content string, o *RenderOpts) string {
 	canBack := !strings.ContainsAny(content, "`")
-	canDouble := !strings.ContainsAny(content, "\"\n\\")
+	canDouble := DoubleQuotable(content)
 	if !canDouble && !canBack {
-		// content with a backslash can still be double-quoted if every backslash starts a
-		// valid escape for the scanner; the generators that use such content ask for it explicitly.
 		return "\"" + content + "\""
 	}
 	if !canDouble {
